@@ -4,4 +4,9 @@
 struct C20Shared {
     ST::string s_short, s_long, s_num, s_hexnum, s_dbl, s_hex, s_b64;
     ST::char_buffer cb;
+    // one function object of each kind, used by every thread (as the members of one shared const container would be)
+    ST::hash fn_hash;
+    ST::hash_i fn_hash_i;
+    ST::less_i fn_less_i;
+    ST::equal_i fn_equal_i;
 };
